@@ -97,16 +97,16 @@ func luFamily(c *inst, raw json.RawMessage, full bool, sum *core.Summary) {
 				continue
 			}
 			for _, ldb := range []int{maxi(1, nrhs), nrhs + 2} {
-				for _, tr := range []blas.Transpose{blas.NoTrans, blas.Trans} {
+				for _, tr := range []blas.Transpose{blas.NoTrans, blas.Trans, blas.ConjTrans} {
 					for _, routine := range []string{"Dgetrs", "lapack64.Getrs"} {
 						if routine == "lapack64.Getrs" && (lda != maxi(1, n) || !full && nrhs != c.R) {
 							continue
 						}
-						k.where = desc(routine, "trans", tr == blas.Trans, "n", n, "nrhs", nrhs, "lda", lda, "ldb", ldb)
+						k.where = desc(routine, "trans", tr != blas.NoTrans, "n", n, "nrhs", nrhs, "lda", lda, "ldb", ldb)
 						a := build(c.LU, c.Den, n, n, lda, 1)
 						a0 := cloneF(a)
 						rhs := c.B
-						if tr == blas.Trans {
+						if tr != blas.NoTrans {
 							rhs = c.BT
 						}
 						b := build(rhs, c.Den, n, nrhs, ldb, 1)
